@@ -44,6 +44,9 @@ def _answers(prop, tier, system, thms, modes=(False,), level="model_checking"):
             chk.cov["distinguishing_inputs_found_live"] = len(found)
         infer.run_sampled(chk, dcases, configs, tag="distinguishing")
         chk.cov["distinguishing_inputs_replayed"] = len(dcases)
+    if system == "c":
+        # the constraint system over MINIMAL correction sets, as coded, refines skeptical inference over all c-representations
+        infer.verify_algo(chk, tier, with_c=True)
     chk.cov["exhaustive"] = True
     chk.cov["rule"] = (
         "path G: TLC enumerates every multiset of <=2 semantic conditionals over 2 atoms (3402 bases); those consistent for the mode are "
